@@ -279,14 +279,15 @@ def entries_check(lib_raw=None):
     if lib_raw is None:
         lib_raw = open(os.path.join(REPO, 'sv-parser-parser/src/lib.rs')).read()
     failures = []
+    undecided = []
     entries = re.findall(r'pub fn (\w+)\(s: Span\)\s*->\s*IResult<[^{]*\{\s*([^}]*)\}', lib_raw)
     checked = len(entries)
     if len(entries) < 5:
-        failures.append(fail('-', 'C07.entries-found', 'fewer than five public parser entries found (anchor lost)', ['C07', 'C15'], None))
+        undecided.append('fewer than five public parser entries found in sv-parser-parser/src/lib.rs (anchor lost)')
     for name, body in entries:
         if not re.match(r'init\([^;]*\);', re.sub(r'\s+', '', body)):
             failures.append(fail(name, 'C07.entry-calls-init-first.%s' % name, 'public entry %s does not call init() first' % name, ['C07', 'C17', 'C15'], Dummy('sv-parser-parser/src/lib.rs', lib_raw[:lib_raw.index('pub fn ' + name)].count('\n') + 1)))
-    return dict(failures=failures, checked=checked)
+    return dict(failures=failures, checked=checked, undecided=undecided)
 
 
 
@@ -375,6 +376,7 @@ def shared_check():
 
 def effects_run(fns, table, comb):
     failures = []
+    undecided_e = []
     checked = 0
     by_name = {f.name: f for f in fns}
     # ---- inventory of statics
@@ -397,7 +399,7 @@ def effects_run(fns, table, comb):
         for n in set(tls) - EXPECTED_TLS:
             failures.append(fail('-', 'C07.thread-local.%s-not-reset' % n, 'a thread-local that init() does not know', ['C07', 'C17'], tls[n]))
         for n in EXPECTED_TLS - set(tls):
-            failures.append(fail('-', 'C07.thread-local.%s-missing' % n, 'expected thread-local not found (anchor lost)', ['C07'], None))
+            undecided_e.append('expected thread-local %s not found (anchor lost)' % n)
     storage = None
     for rel, raw in crate_text('sv-parser-parser'):
         m = re.search(r'nom_packrat::storage!\s*\(([^)]*)\)', raw)
@@ -467,40 +469,47 @@ def effects_run(fns, table, comb):
                     failures.append(fail(f.name, 'C17.direct-state-access.%s.%s' % (f.name, c),
                                          '%s consults/changes parser state through %s(): a result that depends on state outside the memo key (and a side effect that a memo hit skips)' % (f.name, c),
                                          ['C17', 'C07'], f))
-    # key definition
-    key_ok = False
+    # key definition: the extra state of the memo key must contain in_directive() (the frame of the memoised parsers
+    # above minus CURRENT_VERSION, K7); a key of another shape that still consults in_directive() is fine, an impl that
+    # cannot be found is a lost anchor
+    key_state = None
     for rel, raw in crate_text('sv-parser-parser'):
-        m = re.search(r'impl\s+HasExtraState<bool>\s+for\s+SpanInfo\s*\{\s*fn\s+get_extra_state\(&self\)\s*->\s*bool\s*\{\s*in_directive\(\)\s*\}\s*\}', raw)
+        m = re.search(r'impl\s+HasExtraState<[^{]*>\s+for\s+SpanInfo\s*\{\s*fn\s+get_extra_state\(&self\)\s*->[^{]*\{(.*?)\}\s*\}', raw, re.S)
         if m:
-            key_ok = True
+            key_state = 'ok' if re.search(r'\bin_directive\(\)', m.group(1)) else 'bad'
     checked += 2
-    if not key_ok:
-        failures.append(fail('-', 'C17.key.in_directive-not-in-key', 'HasExtraState<bool>::get_extra_state is no longer in_directive()', ['C17'], None))
-    if storage is None or storage[2][:2] != ['AnyNode', 'bool']:
-        failures.append(fail('-', 'C17.key.storage-declaration', 'nom_packrat::storage!(AnyNode, bool, ..) not found', ['C17'], None))
+    if key_state == 'bad':
+        failures.append(fail('-', 'C17.key.in_directive-not-in-key', 'HasExtraState::get_extra_state no longer consults in_directive()', ['C17'], None))
+    elif key_state is None:
+        undecided_e.append('impl HasExtraState<..> for SpanInfo not found (anchor lost)')
+    if storage is None or storage[2][:1] != ['AnyNode']:
+        undecided_e.append('nom_packrat::storage!(AnyNode, ..) not found (anchor lost)')
     # ---- C07: init() resets everything and every entry calls it first
     init = by_name.get('init')
     lib_raw = open(os.path.join(REPO, 'sv-parser-parser/src/lib.rs')).read()
     m = re.search(r'fn init\([^)]*\)\s*\{([^}]*)\}', lib_raw)
     init_body = re.sub(r'\s+', '', m.group(1)) if m else ''
     checked += 1
-    for need in ('nom_packrat::init!();', 'clear_directive();', 'clear_version();'):
-        if need not in init_body:
-            failures.append(fail('init', 'C07.init-resets.%s' % need.strip('();').replace('::', '_').replace('!', ''), 'init() does not call %s' % need, ['C07'], Dummy('sv-parser-parser/src/lib.rs', 1)))
-    for fnname, tl in (('clear_directive', 'IN_DIRECTIVE'), ('clear_version', 'CURRENT_VERSION')):
-        f = by_name.get(fnname)
-        body = re.sub(r'\s+', '', f.body_src) if f else ''
+    if m is None:
+        undecided_e.append('fn init(..) not found in sv-parser-parser/src/lib.rs (anchor lost)')
+    else:
+        for need in ('nom_packrat::init!();', 'clear_directive();', 'clear_version();'):
+            if need not in init_body:
+                failures.append(fail('init', 'C07.init-resets.%s' % need.strip('();').replace('::', '_').replace('!', ''), 'init() does not call %s' % need, ['C07'], Dummy('sv-parser-parser/src/lib.rs', 1)))
+    # that clear_directive / clear_version empty their stacks is decided by unit kwstack (Verus); here only their presence
+    for fnname in ('clear_directive', 'clear_version'):
         checked += 1
-        if not re.search(r'%s\.with\(\|\w+\|\{?\w+\.borrow_mut\(\)\.clear\(\);?\}?\)' % tl, body):
-            failures.append(fail(fnname, 'C07.%s-empties-%s' % (fnname, tl), '%s no longer empties %s' % (fnname, tl), ['C07'], f or Dummy('sv-parser-parser/src/utils.rs', 1)))
+        if by_name.get(fnname) is None:
+            undecided_e.append('%s not found (anchor lost)' % fnname)
     ec = entries_check(lib_raw)
     checked += ec['checked']
     failures += ec['failures']
+    undecided_e += ec.get('undecided', [])
     n_rec = sum(1 for f in fns if f.recursive)
     checked += 1
     if n_rec > 128:
         failures.append(fail('-', 'C07.recursive-parser-index-overflow', '%d #[recursive_parser] functions exceed the 128 bits of RecursiveInfo' % n_rec, ['C07', 'C08'], None))
-    return dict(failures=failures, checked=checked, tls=sorted(tls), n_packrat=n_packrat, n_recursive=n_rec, E=E)
+    return dict(failures=failures, checked=checked, tls=sorted(tls), n_packrat=n_packrat, n_recursive=n_rec, E=E, undecided=undecided_e)
 
 
 NET = {'version_specifier': ('CURRENT_VERSION', +1), 'endkeywords_directive': ('CURRENT_VERSION', -1)}
@@ -602,42 +611,28 @@ def ident_run(fns, table, comb, faithful_notes):
                 if not ok:
                     failures.append(fail(f.name, 'C13.ident.%s-without-keyword-check' % f.name,
                                          '%s is built from %s which does not refuse is_keyword(..)' % (n[1], impls or 'no *_impl lexer'), ['C13'], f))
-    # (2) is_keyword picks the same-named table; empty stack = 1800-2017
-    ik = by_name.get('is_keyword')
-    checked += 1
-    if ik is None:
-        failures.append(fail('is_keyword', 'C13.kw.is_keyword-found', 'is_keyword not found (anchor lost)', ['C13'], None))
-    else:
-        body = re.sub(r'\s+', '', ik.body_src)
-        for v, tname in KW_TABLES.items():
-            checked += 1
-            if 'Some(Version::%s)=>%s,' % (v, tname) not in body:
-                failures.append(fail('is_keyword', 'C13.kw.table-for-%s' % v, 'Version::%s does not select %s' % (v, tname), ['C13'], ik))
-        if 'None=>KEYWORDS_1800_2017,' not in body:
-            failures.append(fail('is_keyword', 'C13.kw.default-table', 'the empty version stack does not select the 1800-2017 table', ['C13'], ik))
-        # membership test: exact comparison against every entry (shapes known to mean that)
-        shapes = ('forkinkeywords{ifs.fragment()==k{returntrue;}}false',
-                  'keywords.iter().any(|k|s.fragment()==k)', 'keywords.contains(s.fragment())', 'keywords.contains(&s.fragment())')
-        if not any(sh in body for sh in shapes):
-            undecided.append('is_keyword: the membership test has an unknown shape (neither the linear scan nor contains/any)')
-    # (3) begin_keywords maps every specifier to the same-named variant
-    bk = by_name.get('begin_keywords')
-    if bk is None:
-        failures.append(fail('begin_keywords', 'C13.kw.begin_keywords-found', 'begin_keywords not found (anchor lost)', ['C13'], None))
-    else:
-        raw = re.sub(r'\s+', '', bk.body_src)
-        for spec, v in SPECIFIERS.items():
-            checked += 1
-            if '"%s"=>current_version.borrow_mut().push(Version::%s),' % (spec, v) not in raw:
-                failures.append(fail('begin_keywords', 'C13.kw.specifier-%s' % spec, 'specifier "%s" does not push Version::%s' % (spec, v), ['C13'], bk))
-    # (4) version_specifier passes the literal it matched
+    # (2),(3) is_keyword / begin_keywords / end_keywords: decided semantically by unit kwstack (Verus); here only their presence
+    for nm in ('is_keyword', 'begin_keywords', 'end_keywords'):
+        checked += 1
+        if by_name.get(nm) is None:
+            undecided.append('%s not found (anchor lost)' % nm)
+    # (4) version_specifier passes the literal it matched: in the alternative that lexes keyword("S") the argument of
+    #     begin_keywords must be "S"; an alternative written in a form not recognised here is a reason for indecision
     vs = by_name.get('version_specifier')
-    if vs is not None:
+    if vs is None:
+        undecided.append('version_specifier not found (anchor lost)')
+    else:
         raw = re.sub(r'\s+', '', vs.body_src)
         for spec in list(SPECIFIERS)[:8]:
             checked += 1
-            if 'map(keyword("%s"),|x|{begin_keywords("%s");x})' % (spec, spec) not in raw:
-                failures.append(fail('version_specifier', 'C13.kw.version_specifier-%s' % spec, 'the alternative for "%s" does not begin_keywords("%s")' % (spec, spec), ['C13'], vs))
+            m_ = re.search(r'keyword\("%s"\),\|(\w+)\|\{begin_keywords\("([^"]*)"\);(\w+)\}' % re.escape(spec), raw)
+            if m_ is None:
+                if 'keyword("%s")' % spec in raw:
+                    undecided.append('version_specifier: the alternative for "%s" has an unknown shape' % spec)
+                else:
+                    failures.append(fail('version_specifier', 'C13.kw.version_specifier-%s' % spec, 'no alternative lexes the specifier "%s"' % spec, ['C13'], vs))
+            elif m_.group(2) != spec or m_.group(1) != m_.group(3):
+                failures.append(fail('version_specifier', 'C13.kw.version_specifier-%s' % spec, 'the alternative for "%s" opens the region "%s"' % (spec, m_.group(2)), ['C13'], vs))
     # (6) the reserved-word tables themselves: equal (as sets) to the committed reference transcription of the
     #     keyword lists of IEEE 1364-1995 .. 1800-2017 Annex B (gvc/keywords_ref.json): detects drift of a table
     try:
@@ -649,7 +644,7 @@ def ident_run(fns, table, comb, faithful_notes):
         for tname, words in sorted(ref.items()):
             checked += 1
             if tname not in cur:
-                failures.append(fail('keywords', 'C13.kw.table-missing-%s' % tname, 'keyword table %s not found' % tname, ['C13'], Dummy('sv-parser-parser/src/keywords.rs', 1)))
+                undecided.append('keyword table %s not found (anchor lost)' % tname)
             elif set(cur[tname]) != set(words):
                 missing = sorted(set(words) - set(cur[tname]))[:5]
                 extra = sorted(set(cur[tname]) - set(words))[:5]
@@ -664,7 +659,12 @@ def ident_run(fns, table, comb, faithful_notes):
         raw = re.sub(r'\s+', '', kw.body_src)
         want = 'ws(alt((all_consuming(map(tag(t),into_locate)),terminated(map(tag(t),into_locate),peek(none_of(AZ09_))),)))'
         if want not in raw:
-            failures.append(fail('keyword', 'C13.kw.keyword-word-boundary', 'keyword(t) no longer requires end of input or a non-[A-Za-z0-9_] character after t', ['C13', 'C02'], kw))
+            if 'none_of(AZ09_)' not in raw or 'all_consuming(' not in raw:
+                failures.append(fail('keyword', 'C13.kw.keyword-word-boundary', 'keyword(t) no longer requires end of input or a non-[A-Za-z0-9_] character after t', ['C13', 'C02'], kw))
+            else:
+                undecided.append('keyword(t): the word-boundary test has an unknown shape')
+    else:
+        undecided.append('keyword(t) not found (anchor lost)')
     return dict(failures=failures, checked=checked, undecided=undecided)
 
 
